@@ -141,6 +141,9 @@ func (f *FileImage) DeleteObjects(fn DescriptorSelectorFunc, opts ...DeleteOpt) 
 		return fmt.Errorf("%w", ErrObjectNotFound)
 	}
 
+	// The minimum object ID of a group may have changed.
+	f.populateMinIDs()
+
 	f.h.ModifiedAt = do.t.Unix()
 
 	if do.compact {
